@@ -21,11 +21,11 @@ theorem actionOutcome_plain (cx : Ctx) (i : Nat) (a : AMode) (act : ActionSpec) 
   · simp
 
 theorem afterBody_plain_res (cx : Ctx) (i : Nat) (a : AMode) (act : ActionSpec) (sd : Nat) (saved : Cursor) (r : Ret)
-    (h : PlainAct act) : (afterBody cx i a act sd saved r).res = r.res := by
+    (h : PlainAct act) (hm : cx.msgs = []) : (afterBody cx i a act sd saved r).res = r.res := by
   unfold afterBody
   split
   · rfl
-  · rfl
+  · rename_i hf; simp [failureHook_plain cx hm, hf]
   · rename_i hok
     simp only
     rcases actionOutcome_plain cx i a act saved r.st.cur h with h1 | h1 <;> simp [h1]
@@ -36,8 +36,8 @@ theorem absO_guard (g : RMode) (c : Cursor) (r : Ret) : absO (guardRestore g c r
   | fail => exact absO_nonok (by simp) (by simp [hr])
   | thr x => exact absO_nonok (by simp) (by simp [hr])
 
-theorem absO_bracket (cx : Ctx) (i : Nat) (a : AMode) (m : RMode) (st : St) (r : Ret) :
-    absO (bracket cx i a m st r) = absO r := absO_congr (by simp) (by simp)
+theorem absO_bracket (cx : Ctx) (i : Nat) (a : AMode) (m : RMode) (kc : Nat) (st : St) (r : Ret) :
+    absO (bracket cx i a m kc st r) = absO r := absO_congr (by simp) (by simp)
 
 section
 variable {cx : Ctx} {rec : Rec} (hg : GoodRec rec) (hs : SRec cx rec)
@@ -65,7 +65,7 @@ theorem nodeCall_sem (k i : Nat) (a : AMode) (m : RMode) (env : Env) (st : St) (
       refine ⟨o, ?_, .ref (Gof_of hn) s⟩
       rw [absO_guard, ← ho]
       apply absO_congr
-      · simp [afterBody_plain_res _ _ _ _ _ _ _ (wf.plain env i nd hn)]
+      · simp [afterBody_plain_res _ _ _ _ _ _ _ (wf.plain env i nd hn) (Ctx.withCtl_msgs_nil wf.nomsgs _)]
       · simp
 
 end
@@ -143,7 +143,7 @@ theorem run_mustlike_nofail (cx : Ctx) (wf : WFT cx) :
       obtain ⟨r0, h0, rfl⟩ := h1
       have := hbody _ _ h0
       simp only [guardRestore_res]
-      rw [afterBody_plain_res _ _ _ _ _ _ _ (wf.plain env j nd hn)]
+      rw [afterBody_plain_res _ _ _ _ _ _ _ (wf.plain env j nd hn) (Ctx.withCtl_msgs_nil wf.nomsgs _)]
       exact this
 
 /-- **Refinement.** Every invocation of the model evaluates `ref i` as the formalism prescribes. -/
